@@ -10,6 +10,8 @@ import (
 	"unsafe"
 
 	mqtt "github.com/at-wat/mqtt-go"
+	"github.com/at-wat/mqtt-go/internal/verif/env"
+	vctx "github.com/at-wat/mqtt-go/internal/verif/shim/context"
 	"github.com/at-wat/mqtt-go/internal/verif/vrt"
 )
 
@@ -143,6 +145,7 @@ func (d c20Msg) build() *mqtt.Message {
 func runC20(c *Ctx) {
 	c20Mux(c)
 	c20Async(c)
+	c20ThroughClient(c)
 }
 
 // ---------------------------------------------------------------------------------------------
@@ -389,24 +392,28 @@ func c20Async(c *Ctx) {
 		plens = []int{0, 1, 3, 8}
 	}
 	c.Bound("async.schedules", fmt.Sprintf("all interleavings of the caller task and the ServeAsync handler tasks with <= %d preemptions", p))
-	c.Bound("async.direct", "ServeAsync{Handler}: caller serves a message, checks it, overwrites its payload bytes in place and changes Topic/QoS/Retain/Dup/ID, serves the reused message as a second message, overwrites again; handler mutation in 8 kinds x payload length in {0,1,3}")
+	c.Bound("async.direct", "ServeAsync{Handler} and ServeAsync{ServeAsync{Handler}}: caller serves a message, checks it, overwrites its payload bytes in place and changes Topic/QoS/Retain/Dup/ID, serves the reused message as a second message, overwrites again; handler mutation in 8 kinds x payload length in {0,1,3}")
 	c.Bound("async.mux", "ServeMux with two ServeAsync handlers (filters '#', 'a/#') with mutation kinds (k, k+3 mod 8) [thorough: all 64 pairs], same caller behaviour with one message then reuse")
 
 	var sample *c20Log
 	var sampleWant []c20Snap
-	for kind := 0; kind < c20NMut; kind++ {
+	for k2 := 0; k2 < 2*c20NMut; k2++ {
 		for _, pl := range plens {
-			kind, pl := kind, pl
+			kind, pl := k2%c20NMut, pl
+			nested := k2 >= c20NMut // ServeAsync wrapped in another ServeAsync
 			var log *c20Log
 			var want []c20Snap
 			sc := &vrt.Scenario{
-				Name:  fmt.Sprintf("C20/async/direct/mut=%s/plen=%d/P%d", c20MutNames[kind], pl, p),
+				Name:  fmt.Sprintf("C20/async/direct/nested=%v/mut=%s/plen=%d/P%d", nested, c20MutNames[kind], pl, p),
 				Bound: vrt.Budget{P: p},
 				Cfg:   vrt.Config{Horizon: int64(60e9)},
 				Body: func() {
 					log = &c20Log{}
 					want = nil
 					sa := &mqtt.ServeAsync{Handler: c20Handler(log, "h", kind)}
+					if nested {
+						sa = &mqtt.ServeAsync{Handler: sa}
+					}
 					msg := &mqtt.Message{Topic: "a/b", ID: 7, QoS: mqtt.QoS1, Retain: true, Dup: false, Payload: c20Payload(pl, 0x10)}
 					w1 := c20Take(msg)
 					want = append(want, w1)
@@ -503,6 +510,70 @@ func c20Async(c *Ctx) {
 				}
 				c.Explore(sc)
 			}
+		}
+	}
+}
+
+// ---------------------------------------------------------------------------------------------
+// part "client": the same guarantee for messages that come off the wire.  A BaseClient hands
+// inbound messages to a ServeMux (two matching handlers, the second also behind ServeAsync); what the
+// first handler does to its copy must reach neither the second handler nor the acknowledgement.
+
+func c20ThroughClient(c *Ctx) {
+	c.Bound("client", "BaseClient over the scripted peer with a ServeMux of two matching handlers (the second plain or behind ServeAsync); the peer sends a QoS 1 and a QoS 2 PUBLISH (retain, DUP set on the second); handler mutation kinds (k, k+3 mod 8); each handler must observe the content that was on the wire and the PUBACK / PUBREC / PUBCOMP must carry the identifiers that were on the wire; P<=1")
+	for k1 := 0; k1 < c20NMut; k1++ {
+		for _, async := range []bool{false, true} {
+			k1, async := k1, async
+			k2 := (k1 + 3) % c20NMut
+			var log *c20Log
+			var net *env.Net
+			sc := &vrt.Scenario{
+				Name:  fmt.Sprintf("C20/client/mut=%s,%s/second-async=%v", c20MutNames[k1], c20MutNames[k2], async),
+				Bound: vrt.Budget{P: 1},
+				Cfg:   vrt.Config{Horizon: int64(60e9)},
+				Body: func() {
+					log = &c20Log{}
+					net = env.NewNet()
+					s := env.NewScript(net)
+					s.AutoConnAck = true
+					mux := &mqtt.ServeMux{}
+					mux.Handle("#", c20Handler(log, "h1", k1))
+					var h2 mqtt.Handler = c20Handler(log, "h2", k2)
+					if async {
+						h2 = &mqtt.ServeAsync{Handler: h2}
+					}
+					mux.Handle("a/#", h2)
+					cli := &mqtt.BaseClient{Transport: s.Conn}
+					cli.Handle(mux)
+					if _, err := cli.Connect(vctx.Background(), "c20"); err != nil {
+						vrt.Failf("harness", "connect: %v", err)
+						return
+					}
+					m1 := &mqtt.Message{Topic: "a/b", ID: 7, QoS: mqtt.QoS1, Retain: true, Payload: c20Payload(3, 0x10)}
+					m2 := &mqtt.Message{Topic: "a", ID: 9, QoS: mqtt.QoS2, Dup: true, Payload: c20Payload(1, 0x20)}
+					want := []c20Snap{c20Take(m1), c20Take(m1), c20Take(m2), c20Take(m2)}
+					s.Send(env.EncPublish(m1.Topic, m1.Payload, 1, m1.ID, false, true))
+					vrt.Settle()
+					s.Send(env.EncPublish(m2.Topic, m2.Payload, 2, m2.ID, true, false))
+					vrt.Settle()
+					s.Send(env.EncAck(env.PUBREL, m2.ID))
+					vrt.Quiesce()
+					c20Expect(log, want, "through a BaseClient")
+					var acks []string
+					for _, p := range s.Got {
+						switch p.Type {
+						case env.PUBACK, env.PUBREC, env.PUBCOMP:
+							acks = append(acks, p.String())
+						}
+					}
+					wantAcks := fmt.Sprint([]string{(&env.Packet{Type: env.PUBACK, ID: 7}).String(), (&env.Packet{Type: env.PUBREC, ID: 9}).String(), (&env.Packet{Type: env.PUBCOMP, ID: 9}).String()})
+					if fmt.Sprint(acks) != wantAcks {
+						vrt.Failf("client/acknowledgements-changed", "acknowledgements written %v, want %v (a handler's changes to its message must not reach the client)", acks, wantAcks)
+					}
+				},
+				Observe: func() uint64 { return net.TraceHash() ^ log.hash() },
+			}
+			c.Explore(sc)
 		}
 	}
 }
